@@ -240,7 +240,8 @@ class Verifier:
         ex.st.env = env
         try:
             for f in facts: ex.assume(f)
-            for ax in w.axioms: ex.assume(ex.eval_spec(ax))
+            for ax in w.axioms:
+                if any(u in _names_used(c) for u in _spec_names(ax, w)): ex.assume(ex.eval_spec(ax))
             for v in env.values():
                 if isinstance(v.ty, TRef):
                     if ex.st.alloc is None: ex.st.alloc = self.alloc0()
@@ -295,6 +296,19 @@ class Verifier:
             self.path_kinds['infeasible'] = self.path_kinds.get('infeasible', 0) + 1
         except E.NeedFork:
             raise Unsupported('fork requested in no-fork context')
+
+def _spec_names(ax, w):
+    import re
+    return [n for n in re.findall(r'[A-Za-z_]\w*', ax) if n in w.ufuncs]
+
+_names_cache = {}
+def _names_used(c):
+    """identifiers occurring in the contract text (to decide which global axioms are relevant)"""
+    import re
+    if c.key not in _names_cache:
+        txt = ' '.join(c.requires + c.ensures + [str(c.raises), str(c.loops), str(c.call_ghost)])
+        _names_cache[c.key] = set(re.findall(r'[A-Za-z_]\w*', txt)) | set(c.hints.get('axioms', []))
+    return _names_cache[c.key]
 
 def _walk_own(fn):
     """walk a function body without descending into nested function/class definitions"""
